@@ -21,7 +21,6 @@ NA = {
     "C17": "pure function of (expression, line); chunking/independence facet rides in C13's dgrep histories (DESIGN.md section 8)",
 }
 PENDING = {
-    "C08": "machinery under construction (datesort pipeline simulation, DESIGN.md section 7b); not claimed until the check exists",
 }
 
 CHECKS = {
@@ -63,6 +62,15 @@ CHECKS.update({
         "technique": "deterministic simulation of the process environment: simulated clock (start, drift, jumps, failure), simulated TZ/LANG/LC_* with libc time/locale seams, locale file behind the simulated file layer; same invocation across environments must agree; locale setter op sequences against a two-slot model",
         "text": "Each seeded invocation with fully specified input (or with --base) runs as a forked incarnation under a baseline and several simulated environments that differ in the clock only, TZ only, LC_* only and in everything; stdout and exit status must be identical. Negative controls (missing fields, no --base) must differ across clocks or the check reports a dead seam (exit 2) instead of passing. Locale direction: op sequences of the two setters, resets and failing setters (unknown name, unreadable or torn file) with parse/format probes against a two-slot model built from data/locale, and --from-locale A --locale B on dconv/dadd/dround in both option orders (all 274x274 pairs in the thorough tier) against parse-with-A then print-with-B.",
         "note": "Trusted: the simulated clock and getenv seams (validated by the negative controls in every run), the civil weekday model. Only C/POSIX locales are installed, so libc locale leakage is made observable by seams that tag names with the simulated locale once setlocale(LC_TIME|LC_ALL, \"\") has been called. Excluded by the statement's own wording: now/today keywords, one-argument dseq, zone `localtime', 2-digit years and time-only values with a zone unless --base is given. The `strptime' helper tool (a wrapper around libc strptime) is not run. Parse probes are judged by the model only for locales whose month names are ASCII and prefix-free; all others differentially against freshly set tables.",
+    },
+})
+
+CHECKS.update({
+    "C08": {
+        "engine": "sort", "category": "exploration", "design_ref": "DESIGN.md section 7b",
+        "technique": "deterministic simulation of a process pipeline: dsort's real main against simulated pipes, vfork children and stub sort/cut processes stepped by a seeded scheduler (pipe capacities, short writes, interleavings); permutation, order and liveness oracles",
+        "text": "Scoped claim. What is simulated is the datesort clause: dsort computes a key per line, writes line and key with its own safe_write() into a pipe and relies on descriptor plumbing across two vfork()ed children to terminate. The simulator owns pipes (capacity 1 byte to 64 KiB), accepts as few bytes per write as the plan says, and picks which helper runs next; oracles: stdout is a permutation of the input lines, dated lines of one kind come out in chronological order (reverse with -r) by the generator's own instants, every helper sees EOF and is reaped (no deadlock, no descriptor misuse), and the real dtest agrees with the order of adjacent lines. The order laws of the comparison functions themselves (antisymmetry, transitivity, totality over all calendars) are pure functions of the values and are NOT decided by this technique; only the dtest cross-check touches them.",
+        "note": "Trusted: the stub sort(1)/cut(1) (bytewise C-locale comparison of fields 2.., last-resort whole-line comparison, -r) -- locale-dependent collation of a real sort on tied keys is not simulated; the vfork emulation (setjmp in the caller's frame, child branch first). Lines containing the separator byte 0x01 are not generated (a pure-input limitation of dsort's protocol). -u is not exercised (output is then not a permutation by design).",
     },
 })
 
